@@ -426,6 +426,10 @@ class State(object):
                 top = int(d.hi) >> (8 * t[2])
                 if top < 255:
                     return Dom(0, top)
+                # all values of the range agree above this byte lane: the lane runs through an interval without wrapping
+                lo_s, hi_s = int(d.lo) >> (8 * t[2]), int(d.hi) >> (8 * t[2])
+                if (lo_s >> 8) == (hi_s >> 8):
+                    return Dom(lo_s & 0xFF, hi_s & 0xFF)
             return BYTE
         if k == 'cat':
             lo = hi = 0
